@@ -243,12 +243,24 @@ class C02(Check):
         E.install_standard(ctx)
         pyd.install(ctx)
         ctx.extern_handlers["os.environ.get"] = lambda I, a, k, n: (a[1] if len(a) > 1 else V.NONE)
-        from checks import C06
+        from checks import C06, C07
+        C07.CHECK.install(ctx)
+        dyn_helpers = ctx.dynamic_call_hook
         C06.CHECK.install(ctx)
+        dyn_writer = ctx.dynamic_call_hook
+
+        def dyn(I, fv, args, kwargs, node, awaited):
+            # typed request helpers (C07.Helper contracts) / the stdio writer (C06 contract)
+            if str(getattr(I, "callsite_prefix", "")).startswith("C07."):
+                return dyn_helpers(I, fv, args, kwargs, node, awaited)
+            return dyn_writer(I, fv, args, kwargs, node, awaited)
+        ctx.dynamic_call_hook = dyn
 
     def modular(self):
-        from checks import C06
-        return C06.CHECK.modular()
+        from checks import C06, helpers_c07
+        m = dict(C06.CHECK.modular())
+        m.update(helpers_c07.modular())
+        return m
 
     def loop_invariants(self):
         from checks import C06
@@ -260,7 +272,13 @@ class C02(Check):
         # message's JSON text, typed messages dumped with exclude_none=True only) are re-verified here
         return [CreateRequest("given"), CreateRequest("generated"), CreateNotification(), CreateResponse(),
                 CreateErrorResponse()] + [ParseEmitted(k) for k in ("request", "notification", "response", "error")] + \
-            [C06.StdinWriter()]
+            [C06.StdinWriter()] + self.helper_contracts()
+
+    def helper_contracts(self):
+        # the typed request helpers are emitters too: what the caller hands them (names, uris, argument objects) reaches
+        # the request params unchanged (C07.Helper contracts, clause argument_*_reaches_the_request_params_unchanged)
+        from checks import helpers_c07
+        return helpers_c07.contracts()
 
     def static_checks(self, repo):
         path = os.path.join(os.path.dirname(__file__), "c02_emitters.txt")
